@@ -25,7 +25,7 @@ def _base(rng, **over):
          "auto_ack": bool(crc) and rng.random() < 0.75, "ask_no_ack": rng.random() < 0.25,
          "pipe": rng.randrange(6), "flavour": rng.choice(["pin", "hwcs", "bus"]),
          "btype": rng.choice(["bytes", "bytearray"]), "static": None, "form": "single",
-         "lens": [5], "seed": rng.getrandbits(30), "ard": None}
+         "lens": [5], "seed": rng.getrandbits(30), "ard": None, "pingpong": rng.random() < 0.3}
     c.update(over)
     return c
 
@@ -56,6 +56,11 @@ def gen_cases(ctx):
             form = "longlist"
         yield _base(rng, static=static, lens=lens, form=form,
                     container=rng.choice(["list", "tuple"]))
+    # streaming through write(): keep loading until write() refuses, like examples/stream master_fifo()
+    for i in range(120 if ctx.tier == "quick" else 8000):
+        static = None if rng.random() < 0.5 else rng.randrange(1, 33)
+        lens = [rng.randrange(1, 33) for _ in range(rng.randrange(4, 13))]
+        yield _base(rng, static=static, lens=lens, form="stream", crc=2, auto_ack=True, ask_no_ack=False)
     # lists containing an invalid element in dynamic mode (rejected mid-list)
     for i in range(40 if ctx.tier == "quick" else 2000):
         lens = [rng.randrange(1, 33), rng.choice([0, 33, 40]), rng.randrange(1, 33)]
@@ -83,7 +88,7 @@ def run_case(ctx, case, kinds=None, prefix=""):
     case = dict(case)
     if kinds:
         case.update(kinds)
-    threaded = case["form"] == "longlist"
+    threaded = case["form"] in ("longlist", "stream")
     pair = L.Pair(ctx, case, threaded=threaded)
     try:
         if threaded:
@@ -236,6 +241,35 @@ def _run_single(ctx, case, pair, prefix):
     if rx.available():
         ctx.violation(prefix + "extra-payload", "peer has more payloads than were sent", case)
         return
+    if case.get("pingpong") and case.get("tx_kind", "full") == "full" and case.get("rx_kind", "full") == "full":
+        # roles swap: the former receiver answers on its own TX address
+        back = L.make_payload(__import__("random").Random(case["seed"] ^ 0xBAC), max(1, case["lens"][0] % 33) or 1, 0x77)
+        tx.listen = True
+        pair.rig.node.idle(400000)
+        rx.listen = False
+        r2 = rx.send(bytes(back), ask_no_ack=case["ask_no_ack"])
+        pair.rig.node.idle(2 * W.MS)
+        got2 = _drain(tx)
+        exp2 = [L.expected_bytes(bytes(back), case["static"])]
+        ctx.clause("peer_read")
+        if [g[1] for g in got2] != exp2 or any(g[0] != 1 for g in got2):
+            ctx.violation(prefix + "pingpong-reply-mismatch", "after the roles were swapped the reply %s "
+                          "sent to the first sender's pipe 1 was read as %r (send returned %r)"
+                          % (exp2[0].hex(), got2, r2), case)
+            return
+        # and forward again: the first receiver must still hear its pipe addresses (incl. pipe 0)
+        rx.listen = True
+        pair.rig.node.idle(400000)
+        tx.listen = False
+        again = bytes(L.make_payload(__import__("random").Random(case["seed"] ^ 0xF0D), max(1, len(exp[0])), 0x99)) if exp else b"x"
+        tx.send(again, ask_no_ack=case["ask_no_ack"])
+        pair.rig.node.idle(2 * W.MS)
+        got3 = _drain(rx)
+        exp3 = [L.expected_bytes(again, case["static"])]
+        if [g[1] for g in got3] != exp3 or any(g[0] != case["pipe"] for g in got3):
+            ctx.violation(prefix + "pingpong-second-round-mismatch", "second forward payload to pipe %d "
+                          "after a role swap was read as %r, expected %s" % (case["pipe"], got3, exp3[0].hex()), case)
+            return
     ctx.nontrivial(sig_of(case))
     ctx.sample({"case": {k: case[k] for k in ("lens", "btype", "static", "pipe", "aw", "rate",
                                                "crc", "auto_ack", "ask_no_ack", "form", "flavour")},
@@ -261,7 +295,30 @@ def _run_threaded(ctx, case, pair, prefix):
     def sender():
         arg = tuple(bufs) if case.get("container") == "tuple" else list(bufs)
         pair.n_tx.deadline = pair.n_tx.t + 3000 * W.MS
-        res["ret"] = tx.send(arg, ask_no_ack=case["ask_no_ack"])
+        if case["form"] == "stream":
+            # the documented non-blocking use of write(): a False return means "TX FIFO full,
+            # nothing loaded" - wait for room (re-starting a failed payload) and try again
+            accepted = 0
+            for b in bufs:
+                while not tx.write(b):
+                    tx.update()
+                    if tx.irq_df:
+                        tx.ce_pin = False
+                        tx.clear_status_flags(False, False, True)
+                        tx.ce_pin = True
+                    pair.n_tx.idle(150 * W.US)
+                accepted += 1
+            for _ in range(400):  # let the FIFO drain
+                if tx.fifo(True, True):
+                    break
+                if tx.irq_df:
+                    tx.ce_pin = False
+                    tx.clear_status_flags(False, False, True)
+                    tx.ce_pin = True
+                pair.n_tx.idle(200 * W.US)
+            res["ret"] = accepted
+        else:
+            res["ret"] = tx.send(arg, ask_no_ack=case["ask_no_ack"])
         pair.n_tx.deadline = None
         pair.n_tx.idle(5 * W.MS)
 
